@@ -444,6 +444,23 @@ class UnitFile:
                     if j >= len(toks):
                         raise ExtractError("%s: no statement end after hint anchor %r" % (gname, anchor))
                     off = toks[j].end
+                elif where == "after_block":
+                    # after the closing brace of the first `{ .. }` that follows the anchor (a loop or an `if`)
+                    depth, j, seen = 0, a, False
+                    while j < len(toks):
+                        u = toks[j]
+                        if u.kind == "punct":
+                            if u.text in "([{":
+                                depth += 1
+                                seen = seen or u.text == "{"
+                            elif u.text in ")]}":
+                                depth -= 1
+                                if seen and depth == 0 and u.text == "}":
+                                    break
+                        j += 1
+                    if j >= len(toks):
+                        raise ExtractError("%s: no block after hint anchor %r" % (gname, anchor))
+                    off = toks[j].end
                 else:
                     raise ExtractError("bad hint position %r" % where)
                 label = hname or re.sub(r"\s+", " ", anchor)[:40]
